@@ -175,6 +175,10 @@ func c17EPModule(r *explore.Run, m *wgen.F5EPModule) {
 		c17HLSL(model, mod, true, fail, count)
 		c17MSL(model, mod, fail, count)
 		c17GLSL(model, mod, fail, count)
+		for _, e := range model.Entries {
+			c17HLSLEntry(model, mod, false, e.Name, fail, count)
+			c17HLSLEntry(model, mod, true, e.Name, fail, count)
+		}
 	}
 
 	compile := func(src string, o msl.Options) (*ctProgram, msl.TranslationInfo, string) {
